@@ -226,6 +226,7 @@ func cmdWorker(args []string) int {
 		d := res.Digest()
 		if run%sampleEvery == 0 {
 			wo.RunDigests[strconv.Itoa(run)] = d
+			wo.RunDigests["obs"+strconv.Itoa(run)] = res.ObsDigest()
 		}
 		nt := res.NonTrivial || (p.NonTriv != nil && p.NonTriv(res))
 		if nt {
@@ -520,11 +521,21 @@ func cmdRun(args []string) int {
 	}
 	// determinism self-check: the shadow process re-executed the sampled runs
 	sh := read(shadowProc.out)
-	detChecked, detMismatch := 0, 0
+	detChecked, detMismatch, tickMismatch := 0, 0, 0
 	for k, v := range sh.RunDigests {
+		if strings.HasPrefix(k, "obs") {
+			continue
+		}
 		if pv, ok := tot.RunDigests[k]; ok {
 			detChecked++
 			if pv != v {
+				if tot.RunDigests["obs"+k] == sh.RunDigests["obs"+k] {
+					// identical observations, different tick counts: the library
+					// did a different amount of work in the two processes (for
+					// example a pool or cache); reported, not fatal
+					tickMismatch++
+					continue
+				}
 				detMismatch++
 				fmt.Fprintf(os.Stderr, "lzsim: run %s produced digest %x in one process and %x in another\n", k, pv, v)
 			}
@@ -611,6 +622,7 @@ func cmdRun(args []string) int {
 			"known_findings_seen":    knownSeen,
 			"determinism_runs_reexecuted_in_second_process": detChecked,
 			"determinism_digest_mismatches":                detMismatch,
+			"determinism_tick_only_mismatches":             tickMismatch,
 			"truncated_by_wall_clock_cap": tot.Truncated,
 			"yield_points":           simyield.NumSites,
 			"real_components":        p.Real,
